@@ -106,6 +106,12 @@ func Gen(r *rng.R, pf Profile) *Spec {
 				s.Files[pre+d+"/x.txt"] = r.Word(1, 20)
 				s.Files[pre+d+"/deep/er/y.txt"] = r.Word(1, 20)
 				s.Files[pre+d+"/deep/skip1.txt"] = r.Word(1, 20)
+				if r.Chance(1, 2) {
+					// plain (non-glob) exclude entries: one names exactly one file that has a
+					// sibling sharing its prefix, one is a path prefix that names no file at all
+					t.Excludes = append(t.Excludes, d+"/x.txt", d+"/deep/e")
+					s.Files[pre+d+"/x.txt.orig.txt"] = r.Word(1, 20)
+				}
 			case 3: // brace glob
 				t.Inputs = append(t.Inputs, fmt.Sprintf("{m,n}%d_%d*.txt", i, k))
 				s.Files[pre+fmt.Sprintf("m%d_%dq.txt", i, k)] = r.Word(1, 20)
